@@ -149,3 +149,36 @@ Definition wfg4_shape_ref (x : list R) : list R :=
 
 (* sum_m (f_m / (2 m))^2, the quantity of the WFG4-9 front statement (m 1-based, list 0-based) *)
 Definition wfg_scaled_sumsq (f : list R) : R := big_sum (fun i => (nth i f 0 / (2 * INR (S i))) ^ 2) (length f).
+
+(* the WFG decision space: 0 <= z_i <= 2i (i 1-based) *)
+Definition wfg_box (z : list R) : Prop := forall i, (i < length z)%nat -> 0 <= nth i z 0 <= 2 * INR (S i).
+
+(* ------------------------------------------------------------------ UF5, UF6, CF1, CF3 (CEC 2009 report) *)
+(* UF5: N = 10, eps = 0.1, h(t) = 2 t^2 - cos(4 pi t) + 1, f1 = x1 + (1/(2N) + eps) |sin(2 N pi x1)| + 2/|J1| sum h(y_j) *)
+Definition uf5_h (t : R) : R := 2 * t ^ 2 - cos (4 * PI * t) + 1.
+Definition uf5_ref (x : list R) : list R :=
+  let n := length x in
+  let bump := (1 / (2 * 10) + 1 / 10) * Rabs (sin (2 * 10 * PI * X x 0)) in
+  [X x 0 + bump + 2 / cntJ true n * sumJ true (fun j => uf5_h (uf_y1 x j)) n;
+   1 - X x 0 + bump + 2 / cntJ false n * sumJ false (fun j => uf5_h (uf_y1 x j)) n].
+(* UF6: N = 2, eps = 0.1, f1 = x1 + max{0, 2 (1/(2N) + eps) sin(2 N pi x1)} + 2/|J1| (4 sum y_j^2 - 2 prod cos(20 y_j pi/sqrt j) + 2) *)
+Definition uf6_ref (x : list R) : list R :=
+  let n := length x in
+  let bump := Rmax 0 (2 * (1 / (2 * 2) + 1 / 10) * sin (2 * 2 * PI * X x 0)) in
+  let term odd := 4 * sumJ odd (fun j => uf_y1 x j ^ 2) n - 2 * prodJ odd (fun j => cos (20 * uf_y1 x j * PI / sqrt (INR j))) n + 2 in
+  [X x 0 + bump + 2 / cntJ true n * term true; 1 - X x 0 + bump + 2 / cntJ false n * term false].
+(* CF1: N = 10, a = 1; y_j as in UF3; constraint f1 + f2 - a |sin(N pi (f1 - f2 + 1))| - 1 >= 0 *)
+Definition cf1_objs (x : list R) : list R :=
+  let n := length x in
+  [X x 0 + 2 / cntJ true n * sumJ true (fun j => uf3_y x j ^ 2) n; 1 - X x 0 + 2 / cntJ false n * sumJ false (fun j => uf3_y x j ^ 2) n].
+Definition cf1_constr (x : list R) : list R :=
+  let f1 := nth 0 (cf1_objs x) 0 in let f2 := nth 1 (cf1_objs x) 0 in
+  [f1 + f2 - 1 * Rabs (sin (10 * PI * (f1 - f2 + 1))) - 1].
+(* CF3: N = 2, a = 1; y_j as in UF1; f2 = 1 - x1^2 + ...; constraint f2 + f1^2 - a sin(N pi (f1^2 - f2 + 1)) - 1 >= 0 *)
+Definition cf3_objs (x : list R) : list R :=
+  let n := length x in
+  let term odd := 4 * sumJ odd (fun j => uf_y1 x j ^ 2) n - 2 * prodJ odd (fun j => cos (20 * uf_y1 x j * PI / sqrt (INR j))) n + 2 in
+  [X x 0 + 2 / cntJ true n * term true; 1 - X x 0 ^ 2 + 2 / cntJ false n * term false].
+Definition cf3_constr (x : list R) : list R :=
+  let f1 := nth 0 (cf3_objs x) 0 in let f2 := nth 1 (cf3_objs x) 0 in
+  [f2 + f1 ^ 2 - 1 * sin (2 * PI * (f1 ^ 2 - f2 + 1)) - 1].
